@@ -16,8 +16,8 @@ package c13
 
 import (
 	"encoding/binary"
-	"errors"
 	"encoding/hex"
+	"errors"
 	"fmt"
 	"net"
 	"net/netip"
@@ -28,6 +28,7 @@ import (
 	"time"
 
 	"github.com/irai/packet"
+	"github.com/irai/packet/fastlog"
 	"github.com/irai/packet/handlers/arp_spoofer"
 	"verif/harness/core"
 	"verif/harness/ndpgen"
@@ -778,6 +779,9 @@ func traceOracle(evs []event, frames []frameRec, ops []*apiOp) (string, string) 
 }
 
 func evalTrace(c *core.Ctx, line string) *core.Case {
+	// traces run with the handler logger at debug level (output discarded): every log line of the handler and of its
+	// spoof loops is formatted, so a panicking log call is a panic of the trace
+	arp_spoofer.Logger.SetLevel(fastlog.LevelDebug)
 	scn := ""
 	for _, f := range strings.Fields(line) {
 		if strings.HasPrefix(f, "scn=") {
